@@ -5,7 +5,8 @@
    model of GenomicPositionOffsets compute them. *)
 From VV Require Import Model.Base Model.Pattern Model.Gpo Spec.LiftSpec
   Proofs.LiftSpecProofs Proofs.ApplyProofs Proofs.GpoRefine Proofs.GpoTop Proofs.GpoNearest
-  Generated.KernelsLift Proofs.KernelLiftEquiv Proofs.GpoAltOverlap.
+  Generated.KernelsLift Proofs.KernelLiftEquiv Proofs.GpoAltOverlap
+  Model.PyLoop Generated.KernelsGpo Proofs.KernelGpoEquiv.
 
 (* the altered sequence is the reference with every variant spliced in *)
 Theorem C05_apply_variants_is_splice : forall start ref vs,
@@ -136,6 +137,38 @@ Theorem C05_var_stats_match_source : forall v r,
   k_vs_alt_ref_delta v = Ok (delta v) /\ k_vs_ref_end v = Ok (vref_end v) /\ k_vs_is_in_range v r = Ok (vs_in_range v r).
 Proof. intros v r. exact (conj (k_vs_alt_ref_delta_eq v) (conj (k_vs_ref_end_eq v) (k_vs_is_in_range_eq v r))). Qed.
 
+(* the tables a GenomicPositionOffsets is made of - net length change, (position, cumulative offset) lists in both directions,
+   deletion / shift / insertion masks - as computed by the loops of genomic_position_offsets.py, translated on every run
+   (for -> fold, a[i] = 1 -> py_set with CPython's index rules), are the tables of the model on every input the model accepts;
+   zmask reads a boolean mask as the 0 / 1 bytes of the array *)
+Theorem C05_liftover_tables_match_source : forall vs r g, range_valid r = true -> from_var_stats vs r = Ok g ->
+  exists cvs, clamp vs r = Ok cvs
+  /\ k_get_alt_ref_delta cvs = Ok (g_alt_length g - rlen r)
+  /\ k_compute_ref_offsets cvs = Ok (g_pos_offsets g, g_alt_offsets g)
+  /\ k_compute_ref_del_mask (rs r) (rlen r) cvs = Ok (zmask (g_del g), zmask (g_shift g))
+  /\ k_compute_alt_ins_mask (rs r) (g_alt_length g) cvs = Ok (zmask (g_ins g)).
+Proof. exact tables_match_source. Qed.
+
+(* the offset lookup (first / last shortcut, then the scan that returns from inside the loop) is the model's, for every list and position *)
+Theorem C05_pos_offset_lookup_matches_source : forall l p, k_get_pos_offset l p = Ok (get_pos_offset l p).
+Proof. exact k_get_pos_offset_eq. Qed.
+
+(* outside the model's accepted inputs too: wherever the model does not flag a negative array index (which CPython would wrap
+   around), a failing run of the source loops fails with the same exception *)
+Theorem C05_masks_match_source_with_errors : forall start n vs, 0 <= n ->
+  (ref_masks start vs (zeros n) (zeros n) <> Err OtherErr ->
+   k_compute_ref_del_mask start n vs
+   = match ref_masks start vs (zeros n) (zeros n) with Ok (dm, sm) => Ok (zmask dm, zmask sm) | Err e => Err e end)
+  /\ (ins_mask start 0 vs (zeros n) <> Err OtherErr ->
+      k_compute_alt_ins_mask start n vs = match ins_mask start 0 vs (zeros n) with Ok m => Ok (zmask m) | Err e => Err e end).
+Proof. intros start n vs Hn. exact (conj (k_compute_ref_del_mask_eq start n vs Hn) (k_compute_alt_ins_mask_eq start n vs Hn)). Qed.
+
+(* non-vacuity: a deletion and an insertion in [10, 30] *)
+Example C05_liftover_tables_example :
+  exists g, from_var_stats [mkVS 12 3 0; mkVS 20 0 2] (mkRange 10 30) = Ok g /\ g_alt_length g = 20
+  /\ k_compute_alt_ins_mask 10 20 [mkVS 12 3 0; mkVS 20 0 2] = Ok (zmask (g_ins g)).
+Proof. eexists. split; [vm_compute; reflexivity|]. split; vm_compute; reflexivity. Qed.
+
 (* an ALT-coordinate variant [pos, pos+len-1] inside the ALT sequence is reported as overlapping a coordinate shift exactly when its
    first base is an inserted base or - for two bases or more - its last base is inserted, the REF span between the pre-images of
    its two ends has another length, or a REF base of that span is deleted or an insertion point.  A single surviving base is never
@@ -177,5 +210,8 @@ Print Assumptions C05_nearest_after.
 Print Assumptions C05_range_lift_shrink.
 Print Assumptions C05_range_lift_strict.
 Print Assumptions C05_var_stats_match_source.
+Print Assumptions C05_liftover_tables_match_source.
+Print Assumptions C05_pos_offset_lookup_matches_source.
+Print Assumptions C05_masks_match_source_with_errors.
 Print Assumptions C05_alt_var_overlap_characterised.
 Print Assumptions C05_alt_single_base_insertion_point_refuted.
